@@ -153,11 +153,11 @@ def r3_guard(ck, F, d):
     site = cs[0][0]
     a = b.arg_exprs(site)
     bound_ok = is_call(a[0], "::" + D["far"]) and is_self_field(a[0].strip().a[0], "range")
-    key = a[1].strip()
-    key_ok = key.k == "field" and key.x["idx"] == 0
-    entry = unwrap_payload(key.a[0], "Some") if key_ok else None
+    key = a[1]
+    tested = cursor_sources(key)
     ck.ob(R, f"tests-far-bound/{d}", bound_ok, f"membership is tested against self.range.{D['far']}() ({a[0].show()[:70]})", b, site)
-    ck.ob(R, f"tests-entry-key/{d}", entry is not None, f"the tested key is the key part of the candidate entry ({key.show()[:90]})", b, site)
+    ck.ob(R, f"tests-entry-key/{d}", tuple_part(key) == {0} and len(tested) >= 3, f"the tested key is the key part of the candidate entry, whichever cursor move produced it ({len(tested)} producing sites)", b, site)
+    entry = True
     ed = bool_edges(b, value_site=site)
     if not ck.ob(R, f"test-branches/{d}", ed is not None, "the membership verdict steers a branch", b, site):
         return
@@ -184,10 +184,9 @@ def r3_guard(ck, F, d):
     for alt, x in somes:
         s = alt.x.get("site")
         ok_dom = s is not None and b.dominates(t_t, s.bb) and not b.dominates(f_t, s.bb)
-        same = entry is not None and all(any(e.ident() == entry.ident() for e in comp.walk() if e.k in ("phi", "call")) or entry.ident() in comp.ident() for comp in x.a[0].a) if x.a[0].k == "agg" else False
         # the returned pair is the transmuted (key, val) of the same entry
         tr = [e for e in x.walk() if e.k == "call" and e.x["path"].endswith(A("transmute_entry"))]
-        same = bool(tr) and entry is not None and all(unwrap_payload(t_.a[0].strip().a[0], "Some") is not None and unwrap_payload(t_.a[0].strip().a[0], "Some").ident() == entry.ident() for t_ in tr)
+        same = bool(tr) and all(tuple_part(t_.a[0]) == {0} and tuple_part(t_.a[1]) == {1} and cursor_sources(t_.a[0]) == tested and cursor_sources(t_.a[1]) == tested for t_ in tr)
         ck.ob(R, f"yield-guarded/{d}", ok_dom, "the Ok(Some(entry)) exit is reached only through the `contains` == true edge", b, s)
         ck.ob(R, f"yield-is-tested-entry/{d}", same, "the yielded entry is the one whose key was tested", b, s)
     # not-first branch: exactly one step
